@@ -501,6 +501,61 @@ def r11_7(prog: Program, chk: Check) -> None:
                f"{c['n']} cases, {c['bad']} failing" + (f"; smallest: {wit[0]}" if wit else ""), witness=wit)  # type: ignore[index]
 
 
+# ------------------------------------------------------------------- R11.8
+def _enabled_chunk(args):
+    part, nparts = args
+    import itertools as _it
+
+    from ..model import Program as _P
+    from . import config_model as cfgm
+    from .c18 import _config_stacks
+
+    model = cfgm.ConfigModel(_P())
+    n = 0
+    bad = []
+    mods = [(), ("a",), ("a", "b"), ("ab",)]
+    for idx, (files, cmd, name, default, is_list) in enumerate(_config_stacks("disable_all", False)):
+        if idx % nparts != part:
+            continue
+        for m1, m2 in _it.permutations(mods, 2):
+            queries = [(name, m1), (name, m2), (name, m1)]
+            got = model.effective(files, cmd, queries, enabled_queries=True)
+            n += 3
+            for qi, (nm, mod) in enumerate(queries):
+                want = cfgm.reference(files, cmd, nm, mod, default, False)
+                g = got.get((qi, nm, mod)) if isinstance(got, dict) else got
+                if g != want:
+                    bad.append((len(repr(files)), {"files": files, "error_code": nm, "modules_asked_in_order": [".".join(q[1]) or "<top>" for q in queries], "asked": ".".join(mod) or "<top>", "answer": g, "configured": want}))
+                    break
+    bad.sort(key=lambda t: t[0])
+    return n, len(bad), [b for _, b in bad[:4]]
+
+
+def r11_8(prog: Program, chk: Check) -> None:
+    import multiprocessing as mp
+    import os as _os
+
+    chk.rule(
+        "R11.8",
+        "whether an error code is enabled for a module is a function of the configuration alone: Options.from_option_list, for_module and is_error_code_enabled (with the option "
+        "machinery of the C18 model) are interpreted on configuration stacks with disable_all / per-code settings at the top level, in a module override and in an extended file; "
+        "the question is asked for pairs of modules in both orders on views of one Options object (as one checker run does for the files it checks) and every answer equals the "
+        "layered configuration, whatever was asked before",
+        floor=1,
+    )
+    procs = 2 if _os.environ.get("VERIF_SELFTEST") else min(16, _os.cpu_count() or 1)
+    with mp.get_context("fork").Pool(procs) as pl:
+        results = pl.map(_enabled_chunk, [(i, procs * 2) for i in range(procs * 2)])
+    n = sum(r[0] for r in results)
+    nbad = sum(r[1] for r in results)
+    wit = [w for r in results for w in r[2]][:4]
+    chk.model_evaluations += n
+    chk.analysed["enabled_model"] = {"questions": n}
+    site = prog.site("options", prog.func("options", "Options.is_error_code_enabled"))
+    chk.ob("R11.8", "options::enabled-model::answer-depends-on-the-configuration-only", nbad == 0, site,
+           f"{n} questions, {nbad} sequences with an answer that differs from the layered configuration" + (f"; smallest: {wit[0]}" if wit else ""), witness=wit)
+
+
 def run(prog: Program, chk: Check) -> None:
     _guard_names(prog)
     guard(chk, r11_1, prog, chk)
@@ -510,3 +565,4 @@ def run(prog: Program, chk: Check) -> None:
     guard(chk, r11_5, prog, chk)
     guard(chk, r11_6, prog, chk)
     guard(chk, r11_7, prog, chk)
+    guard(chk, r11_8, prog, chk)
